@@ -2,7 +2,7 @@
    Examples of the repaired behaviour for the defects fixed in /repo (the former witnesses). *)
 From Coq Require Import List Bool Arith ZArith NArith.
 From Coq Require Import Permutation.
-From PV Require Import C18.Model C18.Spec C18.Proofs C18.ProofsStep C18.MflModel C18.MflSpec.
+From PV Require Import C18.Model C18.Spec C18.Proofs C18.ProofsStep C18.MflModel C18.MflSpec C18.MflParser.
 Import ListNotations.
 
 Definition kP (n : Z) : key := [AS s_PERIPHERALS; AI n].
@@ -129,3 +129,14 @@ Qed.
 Example lnt_met_fixed :
   lnt_peripherals [mkP (MList [0]) (MList [s_DRUG])] [mkP (MList [0]) (MList [s_DRUG]); mkP (MList [1]) (MList [s_MET])] = Ok [].
 Proof. vm_compute. reflexivity. Qed.
+
+(* C18-ALLOMETRY-DEFAULT-REF: "ALLOMETRY(WT)" is a sentence of the grammar (`allometry: "ALLOMETRY"i "(" value ["," decimal] ")"`,
+   the class has the default reference 70.0) but AllometryInterpreter indexes children[1]: IndexError *)
+Theorem allometry_default_ref_refuted :
+  exists text ss,
+    parse_ref text = Some ss /\ existsb allometry_missing_ref ss = true /\ elaborate_all ss <> None /\
+    parse_mfl text = InternalError.
+Proof.
+  exists [65;76;76;79;77;69;84;82;89;40;87;84;41]%N. eexists. split; [vm_compute; reflexivity|].
+  split; [vm_compute; reflexivity|]. split; [vm_compute; discriminate|vm_compute; reflexivity].
+Qed.
